@@ -543,20 +543,24 @@ fn typed_vs_generic(ck: &mut Ck, s: &str) {
 /// C13: the built-in type parameters give identical outcome lines
 fn c13(ck: &mut Ck, a: &[&str]) {
     let strip = |m: String| m.split(" ## ").next().unwrap().to_string();
+    // a panic on one carrier's route is an outcome too ("PANIC"): all carriers must then show it (C06 judges the panic itself)
+    fn guard(f: impl FnOnce() -> String) -> String {
+        catch_unwind(AssertUnwindSafe(f)).unwrap_or_else(|_| "PANIC".to_string())
+    }
     if a[0] == "B" {
         if !matches!(a[1], "g") {
             return;
         }
-        let g = strip(triple::<KG>(&make_g(a)));
-        let s = strip(triple::<KS>(&make_s(a)));
-        let b = strip(triple::<KB>(&make_b(a)));
-        let o = strip(triple::<KO>(&make_o(a)));
+        let g = guard(|| strip(triple::<KG>(&make_g(a))));
+        let s = guard(|| strip(triple::<KS>(&make_s(a))));
+        let b = guard(|| strip(triple::<KB>(&make_b(a))));
+        let o = guard(|| strip(triple::<KO>(&make_o(a))));
         if !(g == s && g == b && g == o) {
             ck.fail("C13", format!("builder outcomes differ: String {} / SmallString {} / Cow::Borrowed {} / Cow::Owned {}", g, s, b, o));
         }
     } else if a[1] == "g" {
-        let g = strip(triple::<KG>(&make_g(a)));
-        let s = strip(triple::<KS>(&make_s(a)));
+        let g = guard(|| strip(triple::<KG>(&make_g(a))));
+        let s = guard(|| strip(triple::<KS>(&make_s(a))));
         if g != s {
             ck.fail("C13", format!("parser outcomes differ: String {} / SmallString {}", g, s));
         }
@@ -1377,6 +1381,22 @@ fn h_oracle(ck: &mut Ck, a: &[&str]) {
             ck.req("C14", !q.iter().any(|kv| kv.ends_with("=-")), "empty-valued qualifier handed out");
             if hook.contains('q') && !hook[hook.rfind('q').unwrap()..].contains('x') {
                 ck.req("C14", q.contains(&format!("{}={}", h("hk"), h("Val")).as_str()), "qualifier inserted by the hook not reported");
+            }
+            // whoever wrote it (the input or the hook): a checksum that is handed out is in canonical form - algorithms (the text before the last ':') lower-cased character by
+            // character and strictly ascending, digests lower-case hex of even length (possibly empty)
+            for kv in &q {
+                if let Some(v) = kv.strip_prefix(&format!("{}=", h("checksum"))) {
+                    let txt = uh(v);
+                    let items: Vec<(&str, &str)> = txt.split(',').map(|e| e.rsplit_once(':').unwrap_or((e, "\u{0}"))).collect();
+                    let canon = items.iter().all(|(al, d)| {
+                        !al.is_empty()
+                            && al.chars().flat_map(char::to_lowercase).collect::<String>() == *al
+                            && d.len() % 2 == 0
+                            && d.chars().all(|c| c.is_ascii_digit() || ('a'..='f').contains(&c))
+                    }) && items.windows(2).all(|w| w[0].0 < w[1].0);
+                    ck.req("C14", canon, "the checksum handed out after the type's hook ran is not in canonical form");
+                    ck.req("C12", canon, "a PURL carries a checksum that is not in canonical form");
+                }
             }
             let last_cs = hook.rfind(|c| c == 'm' || c == 'o' || c == 'c' || c == 'b' || c == 'x').map(|i| hook.as_bytes()[i] as char);
             if last_cs == Some('b') || last_cs == Some('x') {
